@@ -970,6 +970,10 @@ func (r *runner) oracle(c *core.Ctx, root *node, used []int, witness string) {
 			what, o.silent.id, how))
 		return
 	}
+	if strings.HasPrefix(o.timeout, "pending stayed") {
+		c.Fail("pending-is-not-started-minus-completed", what+": sm."+o.timeout+" (stages registered minus stages completed)")
+		return
+	}
 	if o.timeout != "" {
 		c.Fail("harness-timeout", what+": "+o.timeout)
 		return
